@@ -152,7 +152,7 @@ class Spectrum:
 
         valueunit = self.valueunit
 
-        if isinstance(other, (int, float, list, tuple, np.ndarray)):
+        if isinstance(other, (int, float, np.number, np.bool_, list, tuple, np.ndarray)):
             wave = self.wave
             try:
                 value = ufunc(self.value, other)
